@@ -552,6 +552,10 @@ func (core *JApiCore) addBody(d *directive.Directive) *jerr.JApiError {
 	}
 }
 
+func (core *JApiCore) addTags(d *directive.Directive) *jerr.JApiError {
+	return core.catalog.CheckTags(d)
+}
+
 func (core *JApiCore) addProtocol(d *directive.Directive) *jerr.JApiError {
 	if d.Annotation != "" {
 		return d.KeywordError(jerr.AnnotationIsForbiddenForTheDirective)
